@@ -116,6 +116,12 @@ def run_scan(cases, traj=True, shards=12):
         if oracle_panic:
             results[cid]["oracle_contract_violated"] = True
             continue
+        # the contract of the InFile theorems (Props/C12.v): no recorded schema length reaches
+        # beyond the end of the file
+        results[cid]["oracle_answers"] = sum(1 for e in o["oracle"] if "len" in e)
+        over = [e for e in o["oracle"] if "len" in e and e["len"] > 0 and e["pos"] + e["len"] > len(data)]
+        if over:
+            results[cid]["oracle_past_eof"] = over[0]
         diff = None
         if glex != mlex:
             diff = "lexemes"
